@@ -178,6 +178,15 @@ CHECKS["C10"] = dict(
     note="Trusted: antlr4 runtime (reports exactly the non-sentences, calls the listener), z3 (sequence theory for O2). Error states are sampled by mutation (values inside a state are symbolic). Bounded by N, M and the corpus.",
 )
 
+CHECKS["C17"] = dict(
+    engine=E2, category="model_checking", design="§3 C17",
+    technique="symbolic execution of BlackbirdProgram.__call__ and match_template on symbolic parameter values (SymPy boundary crossed with stand-in symbols); z3 decides recovered value != instantiation value for every order-preserving permutation; concrete runs for structural edits",
+    text="Reduced claim in the real-number model: for each template of the family and EVERY reordering of its instance that preserves the order on each mode, the real "
+         "match_template runs on symbolic parameter values and z3 decides that no TemplateError path is feasible and that every recovered value equals the value used for "
+         "instantiation. Rejection of single structural edits is checked on concrete instances. The float-rounding inconsistency after solve() is invisible in this model and stated as a gap.",
+    note=E2NOTE + " Additionally trusted here: sympy.solve, networkx DiGraphMatcher.",
+)
+
 NOT_YET = "check not built yet in this round (see DESIGN.md §3 for the plan); not claimed"
 
 
